@@ -1,4 +1,4 @@
-use crate::wal::config::{MAX_FILE_SIZE, now_millis_str, sanitize_namespace, wal_data_dir};
+use crate::wal::config::{MAX_FILE_SIZE, now_millis_str_after, sanitize_namespace, wal_data_dir};
 use std::cell::RefCell;
 use std::fs;
 use std::path::{Path, PathBuf};
@@ -47,7 +47,7 @@ impl WalPathManager {
 
     pub(crate) fn create_new_file(&self) -> std::io::Result<String> {
         self.ensure_root()?;
-        let file_name = now_millis_str();
+        let file_name = now_millis_str_after(self.newest_wal_file_name());
         let path = self.root.join(&file_name);
         #[cfg(walrus_verif)]
         crate::wal::verif::io_check(crate::wal::verif::IoKind::Create, &path.to_string_lossy(), "", 0, 0)?;
@@ -69,6 +69,19 @@ impl WalPathManager {
         dir.sync_all()?;
 
         Ok(path.to_string_lossy().into_owned())
+    }
+
+    /// Largest numeric (i.e. WAL) file name in the root directory, 0 if there is none.
+    fn newest_wal_file_name(&self) -> u64 {
+        let mut newest = 0u64;
+        if let Ok(dir) = fs::read_dir(&self.root) {
+            for entry in dir.flatten() {
+                if let Some(n) = entry.file_name().to_str().and_then(|s| s.parse::<u64>().ok()) {
+                    newest = newest.max(n);
+                }
+            }
+        }
+        newest
     }
 
     pub(crate) fn root(&self) -> &Path {
